@@ -217,6 +217,11 @@ func hasSecondConjunct(s jv) bool {
 		if obj && other {
 			return true
 		}
+		if pp, ok := o.get("patternProperties"); ok {
+			if pats, ok := pp.(jobj); ok && len(pats) >= 2 {
+				return true // two patterns may match one key
+			}
+		}
 		if pv, ok := o.get("properties"); ok {
 			if pp, ok := o.get("patternProperties"); ok {
 				props, _ := pv.(jobj)
@@ -263,29 +268,168 @@ func hasAdditionalWithRequired(s jv) bool {
 	})
 }
 
-// if/then/else where one part is the generator's statically conflicting schema
-// {"enum":[1],"minimum":5} (CUE `1 & >=5` = bottom as a matchIf argument)
-func hasIfWithConflictLiteral(s jv) bool {
-	isConflict := func(v jv) bool {
-		o, ok := v.(jobj)
-		if !ok {
-			return false
-		}
-		_, e := o.get("enum")
-		_, m := o.get("minimum")
-		return e && m && len(o) == 2
+// if/then/else where one part may be STATICALLY bottom in CUE (then it is an erroring
+// matchIf argument): a const / enum / $ref next to other keywords of the same schema object
+// (e.g. {"enum":[1],"minimum":5} = 1 & >=5), or a lower and an upper numeric bound
+// (>=0.5 & <=0.3 is simplified to bottom); also an `if` nested directly in a part of an `if`.
+func ifPartMayBeBottom(v jv) bool {
+	o, ok := v.(jobj)
+	if !ok {
+		return false
 	}
+	lit, lower, upper, nestedIf := false, false, false, false
+	for _, e := range o {
+		switch e.k {
+		case "const", "enum", "$ref":
+			lit = true
+		case "minimum", "exclusiveMinimum":
+			lower = true
+		case "maximum", "exclusiveMaximum":
+			upper = true
+		case "if":
+			nestedIf = true
+		case "not":
+			// {"not":{}} / {"not":true}: matchN(0,[_]) & <a concrete kind such as null> is
+			// evaluated eagerly to bottom when the parent narrows the type
+			if e.v == true {
+				nestedIf = true
+			}
+			if m, ok := e.v.(jobj); ok && len(m) == 0 {
+				nestedIf = true
+			}
+		}
+	}
+	// (a lone $ref / const / enum conflicts with the kinds the CONTEXT allows: `#d0 & (number | {...})`)
+	return lit || (lower && upper) || nestedIf
+}
+
+func hasIfWithConflictLiteral(s jv) bool {
 	return anySchemaObj(s, func(o jobj) bool {
 		if _, ok := o.get("if"); !ok {
 			return false
 		}
 		for _, k := range []string{"if", "then", "else"} {
-			if v, ok := o.get(k); ok && isConflict(v) {
+			if v, ok := o.get(k); ok && ifPartMayBeBottom(v) {
 				return true
 			}
 		}
 		return false
 	})
+}
+
+// enum with two or more object values: a required field (`"a"!:`) that is missing does not
+// eliminate a disjunct, so the instance stays ambiguous between the closed structs
+func hasEnumWithTwoObjects(s jv) bool {
+	return anySchemaObj(s, func(o jobj) bool {
+		if v, ok := o.get("enum"); ok {
+			if a, ok := v.([]jv); ok {
+				n := 0
+				for _, e := range a {
+					if _, ok := e.(jobj); ok {
+						n++
+					}
+				}
+				return n >= 2
+			}
+		}
+		return false
+	})
+}
+
+// inside $defs (CUE definitions, which are closed recursively) an object branch made only of
+// validators (min/maxProperties, no properties/required/patternProperties/additionalProperties/
+// propertyNames, which would add `...`) is a closed EMPTY struct: every member is rejected
+func hasDefsWithBareObjectValidator(s jv) bool {
+	root, ok := s.(jobj)
+	if !ok {
+		return false
+	}
+	d, ok := root.get("$defs")
+	if !ok {
+		return false
+	}
+	defs, _ := d.(jobj)
+	for _, def := range defs {
+		if anySchemaObj(def.v, func(o jobj) bool {
+			val, str := false, false
+			aval, astr := false, false
+			for _, e := range o {
+				switch e.k {
+				case "minProperties", "maxProperties":
+					val = true
+				case "properties", "required", "patternProperties", "additionalProperties", "propertyNames":
+					str = true
+				case "maxItems", "contains":
+					aval = true
+				case "uniqueItems":
+					aval = aval || e.v == true
+				case "items", "minItems", "prefixItems":
+					astr = true
+				}
+			}
+			if aval && !astr {
+				return true
+			}
+			return val && !str
+		}) {
+			return true
+		}
+	}
+	return false
+}
+
+// a recursive reference ("#", or any reference inside a $defs body) beneath a validator keyword
+// (not / allOf / anyOf / oneOf / if / then / else / contains): matchN, matchIf and list.MatchN
+// report a structural cycle or swallow the incomplete evaluation
+func hasRecursiveRefUnderValidator(s jv) bool {
+	var walk func(v jv, under, inDef bool) bool
+	walk = func(v jv, under, inDef bool) bool {
+		o, ok := v.(jobj)
+		if !ok {
+			return false
+		}
+		if r, ok := o.get("$ref"); ok && under && (r == "#" || inDef) {
+			return true
+		}
+		for _, e := range o {
+			switch {
+			case e.k == "$defs":
+				if m, ok := e.v.(jobj); ok {
+					for _, x := range m {
+						if walk(x.v, false, true) {
+							return true
+						}
+					}
+				}
+			case e.k == "not" || e.k == "if" || e.k == "then" || e.k == "else" || e.k == "contains":
+				if walk(e.v, true, inDef) {
+					return true
+				}
+			case c13SchemaKw[e.k]:
+				if walk(e.v, under, inDef) {
+					return true
+				}
+			case e.k == "allOf" || e.k == "anyOf" || e.k == "oneOf":
+				if a, ok := e.v.([]jv); ok {
+					for _, x := range a {
+						if walk(x, true, inDef) {
+							return true
+						}
+					}
+				}
+			case c13SchemaMap[e.k]:
+				if m, ok := e.v.(jobj); ok {
+					for _, x := range m {
+						if walk(x.v, under, inDef) {
+							return true
+						}
+					}
+				}
+			}
+		}
+		return false
+	}
+	return walk(s, false, false)
 }
 
 func c13ClassImpl(s jv, inst jv, flags string) string {
@@ -300,6 +444,12 @@ func c13ClassImpl(s jv, inst jv, flags string) string {
 		return "oneOf-false-member"
 	case hasContainsWithIncompleteValidator(s):
 		return "contains-incomplete-validator"
+	case hasRecursiveRefUnderValidator(s):
+		return "recursive-ref-under-validator"
+	case hasEnumWithTwoObjects(s):
+		return "enum-two-objects"
+	case hasDefsWithBareObjectValidator(s):
+		return "defs-bare-validator"
 	case hasEffectivePropertyNames(s):
 		return "propertyNames"
 	case hasCloser(s) && hasSecondConjunct(s):
